@@ -20,7 +20,7 @@ type vWide struct {
 	data      []byte
 	frame     int
 	fileIDEnd int
-	hr        [3]byte // heart rates of the three records
+	hr        [4]byte // heart rates of the four records
 	manu      uint16
 }
 
@@ -50,7 +50,7 @@ func vWideStream(extra int, hrLast bool) *vWide {
 			body.Write([]byte{byte(100 + i), 1, 0x0D})
 		}
 	}
-	w.hr[0], w.hr[1], w.hr[2] = vByte(), vByte(), vByte()
+	w.hr[0], w.hr[1], w.hr[2], w.hr[3] = vByte(), vByte(), vByte(), vByte()
 	body.WriteByte(0x01)
 	for i := 0; i < 90; i++ {
 		isHr := (i == 0 && !hrLast) || (i == 89 && hrLast)
@@ -62,7 +62,7 @@ func vWideStream(extra int, hrLast bool) *vWide {
 	}
 	// local 2: record with heart_rate and 5 developer fields of 255 bytes
 	body.Write([]byte{0x62, 0, 0, 20, 0, 1, 3, 1, 0x02, 5, 0, 255, 0, 1, 255, 0, 2, 255, 0, 3, 255, 0, 4, 255, 0})
-	for r := 1; r <= 2; r++ {
+	for r := 1; r <= 3; r++ {
 		body.WriteByte(0x02)
 		body.WriteByte(w.hr[r])
 		for k := 0; k < 5*255; k++ {
@@ -88,7 +88,7 @@ func (w *vWide) check(f *File, id string) {
 	ok := f != nil && f.FileId.Manufacturer == Manufacturer(w.manu) && f.FileId.Type == FileTypeActivity
 	if ok {
 		a, err := f.Activity()
-		ok = err == nil && len(a.Records) == 3
+		ok = err == nil && len(a.Records) == 4
 		if ok {
 			for i := range w.hr {
 				ok = ok && a.Records[i].HeartRate == w.hr[i]
@@ -140,17 +140,26 @@ func Hwide() {
 // the other one was decoded.
 func Hwide8() {
 	vUnwind(20000)
-	a := vWideStream(0, false)
-	b := vWideStream(0, true)
+	// (17 extra fields: the data area is larger than 8 KiB)
+	a := vWideStream(17, false)
+	b := vWideStream(17, true)
 	vResetAccumulators()
 	vTrackShared(true)
 	var fa, fb *File
 	var ea, eb error
-	vPar(func() { fa, ea = Decode(bytes.NewReader(a.data)) }, func() { fb, eb = Decode(bytes.NewReader(b.data)) })
+	var ia, ib error
+	vPar(func() {
+		fa, ea = Decode(bytes.NewReader(a.data))
+		ia = CheckIntegrity(bytes.NewReader(a.data), false)
+	}, func() {
+		ib = CheckIntegrity(bytes.NewReader(b.data), false)
+		fb, eb = Decode(bytes.NewReader(b.data))
+	})
 	vAssert(vSharedWrites() == 0, "C08.frame.no-state-survives-a-call")
 	vAssert(vSharedWrites() == 0, "C09.no-shared-object-is-written")
 	vTrackShared(false)
-	vAssert(ea == nil && eb == nil, "C08.wide.decodes")
+	vAssert(ea == nil && eb == nil && ia == nil && ib == nil, "C08.wide.decodes")
+	vAssert(ia == nil && ib == nil, "C09.same-result-as-alone")
 	a.check(fa, "C09.same-result-as-alone")
 	b.check(fb, "C09.same-result-as-alone")
 	fa2, _ := Decode(bytes.NewReader(a.data))
